@@ -49,7 +49,8 @@ REQUIRED = dict(
     classes=['Isothermal', 'NPoint', 'Guillot2010', 'Rodgers2000', 'TemperatureArray', 'TemperatureFile',
              'npoint:valid', 'npoint:inverted', 'npoint:slope', 'npoint:all-equal', 'npoint:smoothed',
              'guillot:inside', 'guillot:outside-bounds', 'guillot:zero-kappa', 'guillot:negative-T',
-             'guillot:alpha-outside', 'guillot:negative-kappa', 'array:index', 'array:pressure', 'array:all-equal',
+             'guillot:alpha-outside', 'guillot:negative-kappa', 'guillot:reinit-judged', 'reinit:other-grid-same-n',
+             'reinit:other-planet', 'reinit:planet-set', 'reinit:other-n', 'reinit:first-again', 'array:index', 'array:pressure', 'array:all-equal',
              'rodgers:all-equal', 'nlayers:2', 'nlayers:100', 'grid:simple', 'grid:irregular', 'grid:narrow',
              'via-forward-model', 'via-setter'])
 
@@ -186,6 +187,42 @@ def roundtrip(ctx, obj, expect):
                   got=fp[k][2]() if k in fp else None, cls=type(obj).__name__)
 
 
+def reinit_again(ctx, rng, obj, n, P, planet, same_n_only=False, rounds=None):
+    """The SAME profile object is initialised again -- another pressure grid with the same layer count, another
+    planet, the same Planet object after its mass/radius was set, another layer count -- and read again; the first
+    set-up is then restored and read once more.  The contracts judge every read from the grid the tap recorded at
+    initialize_profile, so anything kept from an earlier set-up (a cache keyed on the layer count or the opacities,
+    a buffer, a smoothed profile) shows as a closed-form / within-controls / one-per-layer failure.
+    Reads that the new set-up makes non-physical (a pressure node now outside the grid) are licensed rejections."""
+    for _ in range(int(rounds or rng.integers(1, 4))):
+        kind = ['other-grid-same-n', 'other-planet', 'planet-set', 'other-n'][rng.integers(0, 4)]
+        if kind == 'other-n' and same_n_only:
+            kind = 'other-grid-same-n'
+        if kind == 'other-grid-same-n':
+            P2, _ = gen_pressure(ctx, rng, n)
+            obj.initialize_profile(planet, n, P2)
+        elif kind == 'other-planet':
+            planet2, _ = gen_planet(rng)
+            obj.initialize_profile(planet2, n, P)
+        elif kind == 'planet-set':
+            fp = planet.fitting_parameters()
+            name = ['planet_mass', 'planet_radius'][rng.integers(0, 2)]
+            old = fp[name][2]()
+            new = float(old * 10 ** rng.uniform(-0.5, 0.5))
+            fp[name][3](new)
+            L.redeclare(planet, {name: new})
+            obj.initialize_profile(planet, n, P)
+        else:
+            n2 = gen_nlayers(rng)
+            P2, _ = gen_pressure(ctx, rng, n2)
+            obj.initialize_profile(planet, n2, P2)
+        ctx.observe('reinit:' + kind)
+        access(ctx, obj)
+    obj.initialize_profile(planet, n, P)
+    ctx.observe('reinit:first-again')
+    return access(ctx, obj)
+
+
 # ------------------------------------------------------------------- workloads
 def wl_isothermal(ctx, rng):
     from taurex.data.profiles.temperature import Isothermal
@@ -214,6 +251,7 @@ def wl_isothermal(ctx, rng):
         ctx.event('observed-only:isothermal-negative-T-%s' % ('returned-negative' if np.all(v < 0) else 'other'))
     except Exception as e:
         ctx.event('observed-only:isothermal-negative-T-raised-' + type(e).__name__)
+    reinit_again(ctx, rng, iso, n, P, planet)
     ctx.sig('iso', n, T, T2)
 
 
@@ -303,6 +341,7 @@ def wl_npoint(ctx, rng):
             accepted(ctx, r2, 'npoint-after-set', decl=np_._vmon_decl[1])
         elif v2 == 'slope':
             judge_rejection(ctx, lambda: r2, 'npoint-slope-after-set', decl=np_._vmon_decl[1])
+    reinit_again(ctx, rng, np_, n, P, planet)
     ctx.sig('npoint', n, k, window, gk, tuple(temps), tuple(pp))
     ctx.sample({'class': 'NPoint', 'nlayers': n, 'grid': gk, 'controls': temps, 'pressure_points': pp, 'window': window,
                 'T_minmax': [float(np.min(res)), float(np.max(res))]})
@@ -398,6 +437,10 @@ def wl_guillot(ctx, rng):
             fp[name][3](v)
             L.redeclare(g, {decl: v})
             accepted(ctx, access(ctx, g), 'guillot-after-set', params=g._vmon_decl[1])
+    if mode in ('inside', 'outside-bounds', 'setter-invalid'):
+        again = reinit_again(ctx, rng, g, n, P, planet)
+        if mode == 'inside' and not isinstance(again, Exception):
+            ctx.observe('guillot:reinit-judged')
     ctx.sig('guillot', mode, n, gk, tuple(sorted(p.items())), round(pm, 6), round(pr, 6))
     ctx.sample({'class': 'Guillot2010', 'mode': mode, 'nlayers': n, 'params': p, 'planet': [pm, pr],
                 'T_minmax': [float(np.nanmin(res)), float(np.nanmax(res))]})
@@ -428,6 +471,7 @@ def wl_rodgers(ctx, rng):
         L.redeclare(r, {('temperature_layers', i): v})
         ctx.observe('via-setter')
         accepted(ctx, access(ctx, r), 'rodgers-after-set')
+    reinit_again(ctx, rng, r, n, P, planet, same_n_only=True)
     ctx.sig('rodgers', n, gk, h, tuple(temps[:6]))
     ctx.sample({'class': 'Rodgers2000', 'nlayers': n, 'h': h, 'controls_minmax': [min(temps), max(temps)],
                 'T_minmax': [float(np.min(res)), float(np.max(res))]})
@@ -472,6 +516,7 @@ def wl_array(ctx, rng):
     res = access(ctx, ta)
     if not accepted(ctx, res, 'array', npoints=len(temps)):
         return
+    reinit_again(ctx, rng, ta, n, P, planet)
     ctx.sig('array', n, gk, tuple(temps), None if pts is None else tuple(pts), rev)
     ctx.sample({'class': 'TemperatureArray', 'nlayers': n, 'controls': temps, 'p_points': pts, 'reverse': rev,
                 'T_minmax': [float(np.min(res)), float(np.max(res))]})
@@ -512,6 +557,7 @@ def wl_file(ctx, rng):
     res = access(ctx, tf)
     if not accepted(ctx, res, 'file', npoints=len(temps)):
         return
+    reinit_again(ctx, rng, tf, n, P, planet)
     ctx.sig('file', n, gk, tuple(temps), None if pts is None else tuple(pts), unit, comma, skip)
     ctx.sample({'class': 'TemperatureFile', 'nlayers': n, 'controls': temps, 'p_points': pts, 'unit': unit,
                 'T_minmax': [float(np.min(res)), float(np.max(res))]})
